@@ -323,7 +323,15 @@ def run_check(mod, argv):
         "notes": ctx.notes + list(getattr(mod, "NOTES", [])),
     }
     write_evidence(ctx, coverage, list(getattr(mod, "ASSUMPTIONS", [])), len(violations))
-    for what, path, found in violations:
+    if violations:
+        # one line per check: the first violation; the others are listed beside it
+        what, path, found = violations[0]
+        if len(violations) > 1:
+            with open(path) as f:
+                d = json.load(f)
+            d["further_violations"] = [{"what": w, "replay": p} for w, p, _ in violations[1:]]
+            with open(path, "w") as f:
+                json.dump(d, f, indent=1, default=str)
         print("VIOLATION property=%s replay=%s%s" % (mod.PID, path, "" if found else " no-failing-input-found"))
     ctx.log("done: %d violation(s), %d obligations discharged" % (len(violations), discharged))
     return 1 if violations else 0
